@@ -183,13 +183,27 @@ func c14Check(w *run.Worker, scripts map[string]string, isV2 bool, horizon int) 
 
 func c14Enum(isV2 bool) *senum {
 	I, Id := rt.Int, rt.Id
-	inc := func(v string) *rt.Node { return rt.Assign("=", Id(v), rt.Bin("+", Id(v), I(1))) }
+	// calls in operand position (assignment right-hand side, argument of another call, condition):
+	// a cancelled run must not let a skipped call stand in for a value
+	one := func() *rt.Node {
+		if isV2 {
+			return rt.Call("one")
+		}
+		return rt.Call("len", rt.Str("a"))
+	}
+	idx := func() *rt.Node {
+		if isV2 {
+			return rt.Call("id", Id("x"))
+		}
+		return Id("x")
+	}
+	inc := func(v string) *rt.Node { return rt.Assign("=", Id(v), rt.Bin("+", idx(), one())) }
 	simple := []nodeFn{
 		func() *rt.Node { return rt.Call("p", Id("x")) },
 		func() *rt.Node { return inc("x") },
 	}
 	if !isV2 {
-		simple = append(simple, func() *rt.Node { return rt.Call("add_key", Id("k"), Id("x")) })
+		simple = append(simple, func() *rt.Node { return rt.Call("add_key", Id("k"), rt.Bin("+", rt.Call("len", rt.Str("abc")), Id("x"))) })
 		simple = append(simple, func() *rt.Node { return rt.Call("p", rt.Bin("/", I(1), Id("zz"))) })
 	} else {
 		simple = append(simple, func() *rt.Node { return rt.Call("p", rt.Bin("/", I(1), rt.Nil())) })
@@ -197,7 +211,7 @@ func c14Enum(isV2 bool) *senum {
 	return &senum{
 		simple:   simple,
 		loopOnly: []nodeFn{func() *rt.Node { return rt.Break() }, func() *rt.Node { return rt.Continue() }},
-		conds:    []nodeFn{func() *rt.Node { return rt.Bin("<", Id("x"), I(2)) }},
+		conds:    []nodeFn{func() *rt.Node { return rt.Bin("<", idx(), rt.Bin("+", one(), I(1))) }},
 		forInits: []nodeFn{nil, func() *rt.Node { return rt.Assign("=", Id("y"), I(0)) }},
 		forConds: []nodeFn{nil, func() *rt.Node { return rt.Bin("<", Id("x"), I(2)) }},
 		forSteps: []nodeFn{nil, func() *rt.Node { return inc("x") }},
@@ -322,7 +336,7 @@ func init() {
 	run.Register(&run.Check{
 		ID:    "C14",
 		Level: "fault_enumeration",
-		Rule: "every loop-bearing program of total size <=3 statements (nesting <=3) over {p(x), x=x+1, add_key(k,x), a raising statement, break, continue} x if/else/elif x the 8 three-clause for shapes x for-in over list and string, " +
+		Rule: "every loop-bearing program of total size <=3 statements (nesting <=3) over {p(x), x = x + len(\"a\") (v2: x = id(x) + one()), add_key(k, len(\"abc\") + x), a raising statement, break, continue; if conditions contain a call} x if/else/elif x the 8 three-clause for shapes x for-in over list and string, " +
 			"plus the same loops inside a script reached through use(), plus hand-written nested empty infinite loops (also two use() levels deep), on both interpreters; " +
 			"fault = the poll index k at which the exit signal first reports true, ALL k = 1..min(polls of the uninterrupted run, horizon 40 quick / 200 thorough); " +
 			"oracle: returns nil, final point = point at poll k of the uninterrupted run, probe trace = its prefix at poll k; non-trivial = distinct (interpreter, poll count, trace) of the uninterrupted runs",
